@@ -290,6 +290,7 @@ pub fn mt_stress(rep: &mut Rep, id: &str, threads: usize, ops_per_thread: usize,
             let mut wrong: Vec<String> = Vec::new();
             let mut n = 0;
             while n < ops_per_thread {
+                crate::sim::beat();
                 // a batch of operations outstanding at once from this thread
                 let batch = 1 + rng.below(12);
                 let kinds: Vec<usize> = (0..batch).map(|_| rng.below(8)).collect();
